@@ -334,7 +334,8 @@ def _real(fn_name, args):
 def _parts(tier):
     table = QUICK_NAMES if tier == "quick" else list(range(len(NAMES)))
     hows = ["none", "name", "id", "index"] if tier == "quick" else ["none", "name", "id", "index", "object"]
-    pairs = ((0, 1), (2, 3)) if tier == "quick" else None     # positions in `table`
+    # deletion histories run on selected name pairs (positions in `table`); all pairs only without deletion
+    pairs = ((0, 1), (2, 3)) if tier == "quick" else ((0, 1), (2, 3), (4, 5), (6, 7), (8, 0), (1, 8), (3, 3))
     return [(k, h, tuple(table), pairs) for k in KINDS for h in hows]
 
 
